@@ -206,7 +206,7 @@ static Result execute(const RunSpec& s, bool keepLog) {
   if (condOpsAfterDestroy()) r.probes["cond_op_after_destroy"] += condOpsAfterDestroy();
   if (r.budget_exhausted && !r.violated) {
     // The fair, fault-free tail was exhausted with unfinished work.  While some task still sleeps towards a deadline the run is merely slow
-    // (idle workers may busy-wait, see DESIGN.md O3, and simulated time then advances slowly): no verdict.  Otherwise nothing but the passage of
+    // (idle workers may busy-wait, see DESIGN.md O7, and simulated time then advances slowly): no verdict.  Otherwise nothing but the passage of
     // steps can change the state any more, every started function has long returned, and a client still inside start/join/convert/~Future is stuck.
     r.probes["tail_budget_exhausted"]++;
     bool sleeper = false; std::string who;
